@@ -18,6 +18,8 @@ import sys
 import tempfile
 import time
 
+import z3
+
 import pyvc  # noqa: F401
 from pyvc import dump as D
 from pyvc import tables
@@ -205,6 +207,11 @@ def path_task(payload, decisions):
     if payload.get("gen_dir"):
         case = tables.case_of_result(res.extra.get("dump"), res)
         case["decisions"] = final
+        from props import analyses as AN0
+
+        case["assumes"] = sorted({z3.simplify(c).sexpr() for _, _, c in getattr(p, "wf_assumptions", [])})
+        if res.outcome == "return":
+            case["spares"] = AN0.spare_areas(res.extra["it"])
         with open(os.path.join(payload["gen_dir"], f"{tag}.json"), "w") as f:
             json.dump(case, f)
         sub.decided(f"GEN/{unit}/{tag}", True)
